@@ -417,7 +417,7 @@ def part_a(e: Env, gen_name: str, a: Dict[str, str], b: Dict[str, str], r: commo
         return
     if ref == prev:
         r.count("A_unchanged_output" + ("" if same_cfg else "_for_changed_configuration"))
-        r.outcome(("A", gen_name, "unchanged", common.h64(prev)))
+        r.outcome(("A", gen_name, "unchanged", common.h64(_norm(e, prev))))
         diffs = []
         for rel in sorted({real_rel, drel}):
             x, y = before.get(rel), after.get(rel)
@@ -438,7 +438,7 @@ def part_a(e: Env, gen_name: str, a: Dict[str, str], b: Dict[str, str], r: commo
                     f"{gen_name}: regenerating the same configuration {a} modified / created {other}", case)
     else:
         r.count("A_changed_output")
-        r.outcome(("A", gen_name, "changed", common.h64(prev), common.h64(ref)))
+        r.outcome(("A", gen_name, "changed", common.h64(_norm(e, prev)), common.h64(_norm(e, ref))))
         if new != ref:
             r.violation(
                 {"kind": "changed_output_not_written", "site": g.site, "gen": gen_name, "result": "old_bytes" if new == prev else "missing" if new is None else "other_bytes"},
@@ -450,6 +450,12 @@ def part_a(e: Env, gen_name: str, a: Dict[str, str], b: Dict[str, str], r: commo
                             f"{gen_name}: after saving {b} over {a}, {drel}.old holds {old!r} instead of the previous configuration", case)
             if gen_name == "write_config:symlink" and not os.path.islink(os.path.join(d, drel)):
                 r.count("A_symlink_replaced_by_save")  # only a source comment ("Preserve symlinks") promises this: counted, not a violation
+
+
+def _norm(e: Env, data: bytes) -> bytes:
+    """outputs may embed the per-worker scratch path of the Kconfig file (json_menus ids): not part of a counted outcome"""
+    base = os.path.dirname(e.kpath)
+    return data.replace(base.encode(), b"<K>").replace(base.replace("/", "-").lstrip("-").encode(), b"<K>")
 
 
 def _classify_other(rel: str) -> str:
